@@ -233,3 +233,71 @@ pub fn gen(out: &mut dyn Write, which: &str, seed: u64, thorough: bool) {
     let seed = if which == "c10" { 1 } else { seed };
     sweep(out, seed ^ 0xE0C, &o);
 }
+
+/// model correspondence for the parts of the encoder around the mode encoders:
+/// `macro_prefix` (C16) and `add_padding` (C02), through the hooks
+pub fn gen_prefix(out: &mut dyn Write, which: &str, seed: u64, thorough: bool) {
+    use datamatrix::verif_hooks as vh;
+    let mut rng = Rng::new(seed ^ 0x9F1);
+    let mut hist: BTreeMap<String, usize> = BTreeMap::new();
+    if which == "c16m" {
+        let mut bodies: Vec<Vec<u8>> = vec![vec![], vec![b'A'], vec![0x1E], vec![0x04], vec![0x1E, 0x04], b"01".to_vec()];
+        for _ in 0..(if thorough { 20000 } else { 2000 }) {
+            let n = rng.below(12);
+            bodies.push(gen_data(&mut rng, n, &mut hist));
+        }
+        for body in &bodies {
+            // every shape: proper envelope, each head truncated by 1..6, partial / missing trailer, bare pieces
+            let mut shapes: Vec<Vec<u8>> = vec![body.clone()];
+            for head in [HEAD05, HEAD06] {
+                for cut in 0..=6 {
+                    for trail in [&TRAIL[..], &TRAIL[..1], &TRAIL[1..], &b""[..]] {
+                        let mut v = head[..head.len() - cut].to_vec();
+                        v.extend_from_slice(body);
+                        v.extend_from_slice(trail);
+                        shapes.push(v);
+                    }
+                }
+            }
+            for d in shapes {
+                for (m, f) in [(true, false), (true, true), (false, false), (false, true)] {
+                    let d2 = d.clone();
+                    let r = guarded(move || vh::macro_prefix(&d2, m, f));
+                    let ans = match r {
+                        Ok((cw, body)) => format!("ok:{}:{}", hex(&cw), hex(&body)),
+                        Err(_) => "panic".into(),
+                    };
+                    writeln!(out, "P mprefix {} {} {} => {}", m as u8, f as u8, hex(&d), ans).unwrap();
+                }
+            }
+        }
+    } else {
+        // add_padding: every size x every prefix length 0..=capacity (thorough) / sampled (quick), both modes
+        let sizes = all_sizes();
+        for (si, s) in sizes.iter().enumerate() {
+            let cap = vh::size_info(*s).num_data_codewords;
+            let lens: Vec<usize> = if thorough || cap <= 40 {
+                (0..=cap).collect()
+            } else {
+                let mut v: Vec<usize> = vec![0, 1, 2, cap - 3, cap - 2, cap - 1, cap];
+                for _ in 0..12 {
+                    v.push(rng.below(cap + 1));
+                }
+                v
+            };
+            for l in lens {
+                for ascii in [true, false] {
+                    let pre: Vec<u8> = (0..l).map(|_| 1 + rng.below(128) as u8).collect();
+                    let p2 = pre.clone();
+                    let s2 = *s;
+                    let r = guarded(move || vh::add_padding(&p2, ascii, s2));
+                    let ans = match r {
+                        Ok(v) => hex(&v),
+                        Err(_) => "panic".into(),
+                    };
+                    writeln!(out, "P apad {} {} {} => {}", si, ascii as u8, hex(&pre), ans).unwrap();
+                }
+            }
+        }
+    }
+}
